@@ -83,6 +83,21 @@ class BitEval:
             out = self.rvalue(ds[0][3]["rv"], w)
             if out is not None:
                 out = (out + [0] * w)[:w]
+        elif w and len(ds) == 1 and ds[0][2] == "call":
+            t = ds[0][3]
+            names = " ".join(x for x in (t.get("callee"), t.get("resolved")) if x)
+            # lossless unsigned widening: usize::from(u8), u32::from(u16), x.into()
+            if re.search(r"(std::convert::From::from|std::convert::Into::into|as std::convert::From<u(8|16|32|64)>>::from)$", t.get("callee") or "") or \
+                    re.search(r"as std::convert::From<u(8|16|32|64)>>::from", names):
+                tys = t.get("arg_tys") or []
+                if len(t["args"]) == 1 and tys and width_of(tys[0]) and tys[0].strip().startswith("u") and width_of(tys[0]) <= w:
+                    v = self.operand(t["args"][0], width_of(tys[0]))
+                    if v is not None:
+                        out = (v + [0] * w)[:w]
+        if out is None and w:
+            # an opaque value: every bit is "bit i of that value" (named by its description, so two uses of one value agree)
+            key = self.input_key(l)
+            out = [("in", key, 0, i) for i in range(w)]
         self.memo[l] = out
         return out
 
